@@ -1,16 +1,13 @@
 #!/bin/bash
 # usage: selftest.sh [Cxx ...]  : every must-fail mutant of the given properties (default: all) must make its check fail.
 # Mutants: selftest/mutants/<Cxx>_*.patch and seeded/<name>/patch.diff whose meta.json says "detected_by" contains the property.
+# Runs SELFTEST_JOBS (default 4) mutants in parallel, each in its own scratch worktree of /repo HEAD (removed afterwards).
 set -u
 cd /verif
-wt=/tmp/govc-selftest-wt
-git -C /repo worktree remove --force $wt >/dev/null 2>&1
-git -C /repo worktree add --detach $wt HEAD >/dev/null 2>&1 || { echo "cannot create worktree"; exit 2; }
-# contracts not yet committed in /repo are needed too
-trap 'git -C /repo worktree remove --force $wt >/dev/null 2>&1' EXIT
 props="$*"
-fail=0; n=0
+jobs=${SELFTEST_JOBS:-4}
 list=$(ls selftest/mutants/*.patch 2>/dev/null; for m in seeded/*/meta.json; do [ -f "$m" ] && echo "$m"; done)
+pairs=$(mktemp)
 for item in $list; do
   if [[ "$item" == *.patch ]]; then
     ids=$(basename "$item" | cut -d_ -f1); patch="$item"
@@ -19,18 +16,37 @@ for item in $list; do
   fi
   for id in $ids; do
     if [ -n "$props" ] && ! [[ " $props " == *" $id "* ]]; then continue; fi
-    git -C $wt checkout -q -- . ; 
-    if ! git -C $wt apply "$(realpath $patch)" 2>/dev/null; then echo "SELFTEST-SKIP $patch (does not apply)"; continue; fi
-    n=$((n+1))
-    out=$(engine/govc prop -repo $wt -id $id -no-evidence -no-replay -replays /tmp/govc-selftest-replays 2>&1); rc=$?
-    if [ $rc -eq 1 ] && echo "$out" | grep -q "^VIOLATION property=$id"; then
-      echo "SELFTEST-OK   $id $(basename $(dirname $patch))/$(basename $patch): $(echo "$out" | grep -c '^VIOLATION') violation(s), first: $(echo "$out" | grep -m1 '^FAILED' | cut -c1-150)"
-    else
-      echo "SELFTEST-MISS $id $patch: check did not fail (rc=$rc)"; fail=1
-    fi
+    echo "$id $patch" >> $pairs
   done
 done
-git -C $wt checkout -q -- .
-rm -rf /tmp/govc-selftest-replays
+run_one() {
+  id="$1"; patch="$2"; slot="$3"
+  wt=/tmp/govc-selftest-wt-$slot
+  if [ ! -d $wt ]; then git -C /repo worktree add --detach $wt HEAD >/dev/null 2>&1 || { echo "SELFTEST-ERR cannot create worktree $wt"; return; }; fi
+  git -C $wt checkout -q -- . ; git -C $wt clean -fdq
+  if ! git -C $wt apply "$(realpath $patch)" 2>/dev/null; then echo "SELFTEST-SKIP $patch (does not apply)"; return; fi
+  out=$(engine/govc prop -repo $wt -id $id -no-evidence -no-replay -replays /tmp/govc-selftest-replays-$slot 2>&1); rc=$?
+  git -C $wt checkout -q -- .
+  if [ $rc -eq 1 ] && echo "$out" | grep -q "^VIOLATION property=$id"; then
+    echo "SELFTEST-OK   $id $(basename $(dirname $patch))/$(basename $patch): $(echo "$out" | grep -c '^VIOLATION') violation(s), first: $(echo "$out" | grep -m1 '^FAILED' | cut -c1-150)"
+  else
+    echo "SELFTEST-MISS $id $patch: check did not fail (rc=$rc)"
+  fi
+}
+export -f run_one
+for s in $(seq 1 $jobs); do git -C /repo worktree remove --force /tmp/govc-selftest-wt-$s >/dev/null 2>&1; done
+git -C /repo worktree prune
+n=$(wc -l < $pairs)
+res=$(mktemp)
+# slot = (line number mod jobs)+1 would collide under xargs; use a simple job pool with per-slot queues
+for s in $(seq 1 $jobs); do
+  ( i=0; while read -r id patch; do i=$((i+1)); if [ $(( (i-1) % jobs + 1 )) -eq $s ]; then run_one "$id" "$patch" "$s"; fi; done < $pairs ) >> $res.$s &
+done
+wait
+cat $res.* | sort
+fail=0; grep -q "SELFTEST-MISS\|SELFTEST-ERR" $res.* && fail=1
+for s in $(seq 1 $jobs); do git -C /repo worktree remove --force /tmp/govc-selftest-wt-$s >/dev/null 2>&1; rm -rf /tmp/govc-selftest-replays-$s; done
+git -C /repo worktree prune
+rm -f $pairs $res $res.*
 echo "selftest: $n mutant runs, $( [ $fail -eq 0 ] && echo all detected || echo SOME MISSED )"
 exit $fail
